@@ -72,6 +72,7 @@ class LoopCtx:
         self.entry = entry
         self.i = index
         self.seq = seq
+        self.assuming = False
 
     def __getitem__(self, name):
         v = self.eng.lookup_name(name, self.st, self.fr)
@@ -137,6 +138,7 @@ def stored_fields(nodes):
 
 
 def _inv_obligations(eng, spec, ctx, st, what, line):
+    ctx.assuming = False  # the invariant is a goal here: universal clauses may be stated for an arbitrary constant
     r = spec.invariant(ctx) if spec.invariant else z3.BoolVal(True)
     if isinstance(r, (list, tuple)):
         for nm, g in r:
@@ -146,6 +148,7 @@ def _inv_obligations(eng, spec, ctx, st, what, line):
 
 
 def _inv_assume(spec, ctx, st):
+    ctx.assuming = True  # the invariant is a hypothesis here: universal clauses have to be quantified
     r = spec.invariant(ctx) if spec.invariant else z3.BoolVal(True)
     if isinstance(r, (list, tuple)):
         for _, g in r:
